@@ -28,8 +28,8 @@ CONSTANTS Frames,        \* set of framings (sequences of field lengths)
           Decoder,       \* "full" | "single"
           AllowDataEOF   \* reader may return the last bytes together with EOF
 
-VARIABLES frame, avail, pos, field, got, status
-vars == <<frame, avail, pos, field, got, status>>
+VARIABLES frame, avail, pos, field, got, status, stut
+vars == <<frame, avail, pos, field, got, status, stut>>
 
 RECURSIVE SumSeq(_)
 SumSeq(s) == IF s = <<>> THEN 0 ELSE Head(s) + SumSeq(Tail(s))
@@ -49,7 +49,7 @@ FramesBig   == FramesSmall \cup {PollardFrame(3), PollardFrame(4), MapFrame(2, 3
 
 Init == /\ frame \in Frames
         /\ avail \in 0..SumSeq(frame)
-        /\ pos = 0 /\ field = 1 /\ got = 0 /\ status = "run"
+        /\ pos = 0 /\ field = 1 /\ got = 0 /\ status = "run" /\ stut = 0
 
 Want == IF Decoder = "full" THEN frame[field] - got ELSE frame[field]
 
@@ -77,14 +77,26 @@ ReadStep ==
      ELSE \E j \in 1..Min(Want, avail - pos) :
             \E eof \in (IF AllowDataEOF /\ pos + j = avail THEN {FALSE, TRUE} ELSE {FALSE}) :
                OnRead(j, eof)
+  /\ stut' = 0
+  /\ UNCHANGED <<frame, avail>>
+
+\* a conforming reader may also return (0, nil): nothing happened (at most once in a row here)
+Stutter ==
+  /\ status = "run" /\ field <= Len(frame) /\ stut = 0
+  /\ stut' = 1
+  /\ IF Decoder = "full"
+     THEN UNCHANGED <<pos, field, got, status>>
+     ELSE \* the single-Read decoder takes the field for read
+          /\ got' = 0 /\ field' = field + 1 /\ pos' = pos
+          /\ status' = IF field = Len(frame) THEN "ok" ELSE "run"
   /\ UNCHANGED <<frame, avail>>
 
 \* an empty framing is accepted without reading
 Finish == /\ status = "run" /\ field > Len(frame) /\ status' = "ok"
-          /\ UNCHANGED <<frame, avail, pos, field, got>>
+          /\ UNCHANGED <<frame, avail, pos, field, got, stut>>
 
-Next == ReadStep \/ Finish
-Spec == Init /\ [][Next]_vars /\ WF_vars(Next)
+Next == ReadStep \/ Stutter \/ Finish
+Spec == Init /\ [][Next]_vars /\ WF_vars(ReadStep \/ Finish)
 
 TypeOK == /\ pos \in 0..avail /\ field \in 1..(Len(frame) + 1) /\ status \in {"run", "ok", "err"}
 
